@@ -361,7 +361,9 @@ static Universe make_universe(Cmp cmp, const std::vector<int> &raw) {
     Universe u; u.cmp = cmp;
     static const int extremes[] = {INT_MIN, INT_MIN + 1, INT_MIN + 2, -2, -1, 0, 1, 2, INT_MAX - 2, INT_MAX - 1, INT_MAX,
                                    1 << 30, -(1 << 30), 1000000007, -1000000007};
-    static const char *words[] = {"a", "A", "b", "B", "ab", "AB", "Ab", "abc", "ABD", "z", "Z", "", "m", "M", "iauth", "IAUTH", "Iauth_x", "iauth_x", "0", "_"};
+    static const char *words[] = {"a", "A", "b", "B", "ab", "AB", "Ab", "abc", "ABD", "z", "Z", "", "m", "M", "iauth", "IAUTH", "Iauth_x", "iauth_x", "0", "_",
+                                  // ASCII case folding only: [ \\ ] ^ are not the upper-case forms of { | } ~
+                                  "chan[1]", "chan{1}", "a\\b", "a|b", "x^", "x~", "x]", "x}", "`", "@", "[", "{"};
     std::set<long long> seen;
     for (int r : raw) {
         switch (cmp) {
